@@ -122,9 +122,12 @@ def gen(rng, i, quick):
     return g.script(), {"joins": joins, "bad": bad, "exts": exts, "kp_ops": kp_ops}
 
 
-def position_script(n, c, with_path):
-    """A group of n members (leaves 0..n-1); the member at leaf c adds one more, with or without a path."""
-    names = [chr(ord("A") + k) for k in range(n + 1)]
+def position_script(n, c, with_path, rotate=False, ext=False):
+    """A group of n members (leaves 0..n-1); the member at leaf c adds one more, with or without a
+    path; rotate: the committer changes its signature key in that very commit (the Welcome's
+    GroupInfo must be signed by the key that sits in the NEW tree); ext: a further party joins by
+    external commit through the GroupInfo that the commit output carries."""
+    names = [chr(ord("A") + k) for k in range(n + 2)]
     members = [{"name": x} for x in names]
     ops = [{"op": "create", "who": names[0]}]
     if n > 1:
@@ -135,8 +138,8 @@ def position_script(n, c, with_path):
             ops.append({"op": "join", "who": x, "welcome_any": "c0"})
     j = names[n]
     ops.append({"op": "kp", "who": j, "id": "kJ"})
-    ops.append({"op": "opts", "who": names[c], "path_required": with_path, "tree_ext": True, "encrypt_controls": False})
-    ops.append({"op": "commit", "who": names[c], "id": "c1", "add": ["kJ"]})
+    ops.append({"op": "opts", "who": names[c], "path_required": with_path, "tree_ext": True, "encrypt_controls": False, "allow_ext_commit": ext})
+    ops.append(dict({"op": "commit", "who": names[c], "id": "c1", "add": ["kJ"]}, **({"new_id": True} if rotate else {})))
     for x in names[:n]:
         if x != names[c]:
             ops.append({"op": "deliver", "to": x, "msg": "c1"})
@@ -144,12 +147,26 @@ def position_script(n, c, with_path):
     ops.append({"op": "join", "who": j, "welcome_any": "c1"})
     ops.append({"op": "observe", "who": j, "observe": "all"})
     obs = len(ops) - 1
+    exts = [{"name": j, "obs_join": obs}]
+    if rotate:
+        # what the committer sends with its new key is accepted by everybody
+        ops.append({"op": "app", "who": names[c], "id": "ar", "data": "aa"})
+        for x in names[:n + 1]:
+            if x != names[c]:
+                ops.append({"op": "deliver", "to": x, "msg": "ar"})
+    if ext:
+        k = names[n + 1]
+        ops.append({"op": "ext_commit", "who": k, "gi": "c1.gi", "id": "x1"})
+        for x in names[:n + 1]:
+            ops.append({"op": "deliver", "to": x, "msg": "x1"})
+        ops.append({"op": "observe", "who": k, "observe": "all"})
+        exts.append({"name": k, "obs_join": len(ops) - 1})
     ops.append({"op": "opts", "who": j, "path_required": True, "encrypt_controls": False})
     ops.append({"op": "commit", "who": j, "id": "c2"})
-    for x in names[:n]:
+    for x in names[:n] + ([names[n + 1]] if ext else []):
         ops.append({"op": "deliver", "to": x, "msg": "c2"})
     ops.append({"op": "apply", "who": j})
-    return {"name": f"c07-pos-n{n}-c{c}-{'path' if with_path else 'nopath'}", "suite": 1, "members": members, "ops": ops}, {"joins": [], "bad": [], "exts": [{"name": j, "obs_join": obs}], "kp_ops": {}}
+    return {"name": f"c07-pos-n{n}-c{c}-{'path' if with_path else 'nopath'}{'-rot' if rotate else ''}{'-ext' if ext else ''}", "suite": 1, "members": members, "ops": ops}, {"joins": [], "bad": [], "exts": exts, "kp_ops": {}}
 
 
 def rejoin_script(rng, i, saved):
@@ -193,6 +210,14 @@ def main(run, args):
         for c in range(n):
             for wp in (True, False):
                 items.append(position_script(n, c, wp))
+    # the committer rotates its signature key in the adding commit; joins by Welcome and, through the
+    # GroupInfo carried by the commit output, by external commit
+    for n in range(1, 6 if quick else 10):
+        for c in range(n):
+            for wp in (True, False):
+                for ext in (False, True):
+                    items.append(position_script(n, c, wp, rotate=True, ext=ext))
+            items.append(position_script(n, c, True, rotate=False, ext=True))
     rej = [rejoin_script(rng, i, s) for i in range(2 if quick else 8) for s in (False, True)]
     recs = run_scripts([x[0] for x in items] + [x[0] for x in rej], timeout=3000)
     failing, cases = [], []
